@@ -11,7 +11,8 @@ Tie K: random histories (puts with chosen ids incl. re-puts of unstored / purged
        queryDatasets, queryDatasetAssociations, the root listing and the raw dataset / dataset_location(_trash) /
        file_datastore_records rows are recorded and compared with the Coq model (vm_compute) -- Model/RemovalCheck.v
        (15 fields per step, incl. _exists_many / stored_many over all ids in ONE call and query_datasets over every chain).
-Known findings: known_findings.d/C10.json.  Attribution to K-C10-stale-trash-row is deliberately narrow (see `stale` /
+Known findings: known_findings.d/C10.json (the refused re-ingest that destroyed the stored artifact is FIXED in /repo 2da36a1: no
+       attribution is left for it, corpus 10 is a regression case).  Attribution to K-C10-stale-trash-row is deliberately narrow (see `stale` /
        `victims` in check_history and design.d/C10.md); the bulk-existence defect is FIXED (245923d) and is reported as an
        ordinary violation if it returns.
 Oracle (from the property text, independent of the Coq model): `check_history` below.  It never simulates the
@@ -271,10 +272,6 @@ def _vec(obs, d):
     }
 
 
-# observables that say whether artifacts are present (and nothing about tables)
-ARTIFACT_KEYS = {"files", "exists", "many", "stored", "stored_many", "readable", "carried"}
-
-
 def _snapshot(obs):
     return json.dumps({k: v for k, v in obs.items() if k != "probe_errors"}, sort_keys=True)
 
@@ -444,17 +441,9 @@ def check_history(ctx: Ctx, hist, steps, origin):
             if not ok:
                 if _snapshot(prev) != _snapshot(obs):
                     diff = [k for k in obs if k != "probe_errors" and obs[k] != prev.get(k)]
-                    held = op[0] == "Ingest" and any(d in prev["raw_loc"] or any(r[0] == d for r in prev["raw_recs"]) for d in op[1:3])
-                    if held and out == "Err:Conflict" and "files" in diff and set(diff) <= ARTIFACT_KEYS and \
-                            [f for f in prev["files"] if f not in obs["files"]] == [[op[3], op[4]]] and all(f in prev["files"] for f in obs["files"]):
-                        # /repo finding F-C01-reingest seen from C10: the ingest of an id the datastore already knows is refused
-                        # after the file was copied over the artifact of its first ref; the rollback removes that file
-                        fail("refused-reingest-destroyed-artifact", i,
-                             f"{opkind(op)} of a dataset the datastore already holds was refused with {out} but the artifact at the "
-                             f"ingest target {[op[3], op[4]]} was overwritten and then deleted by the rollback", diff)
-                    else:
-                        fail("refused-op-changed-state", i, f"{opkind(op)} was refused with {out} but an observable changed", diff,
-                             d=op[1] if op[0] == "Put" and diff == ["files"] else None)
+                    # (a refused re-ingest that deletes the stored artifact -- fixed in /repo 2da36a1 -- is reported here like any other)
+                    fail("refused-op-changed-state", i, f"{opkind(op)} was refused with {out} but an observable changed", diff,
+                         d=op[1] if op[0] == "Put" and diff == ["files"] else None)
             k = op[0]
             targets = None
             mode = None
@@ -573,6 +562,8 @@ def check_history(ctx: Ctx, hist, steps, origin):
                 d = op[1]
                 if obs["exists"][d][:3] != [1, 1, 1]:
                     fail("put-not-visible", i, f"after a successful put dataset {d} is reported {obs['exists'][d]}")
+            if k == "Ingest" and ok and any(d in prev["raw_loc"] or any(r[0] == d for r in prev["raw_recs"]) for d in op[1:3]):
+                fail("reingest-of-held-accepted", i, "Butler.ingest accepted a dataset the datastore already holds")
             if ok and k == "Ingest":
                 for d in op[1:3]:
                     if obs["exists"][d][:3] != [1, 1, 1] or obs["many"][d][:3] != [1, 1, 1]:
